@@ -542,20 +542,40 @@ func c07RuleAllow(c *eng.Ctx, ruleAllow, match *ssa.Function, helper *globHelper
 			return res
 		}
 		cal := eng.Callee(&call.Call)
-		if cal == nil || cal.Blocks == nil || len(call.Call.Args) != 1 || len(cal.Params) != 1 {
+		if cal == nil || cal.Blocks == nil || !eng.IsHelper(ruleAllow, cal) {
 			return ""
 		}
-		fld := recvField(call.Call.Args[0])
-		if fld != "Action" && fld != "Secret" {
+		// a local predicate: a literal over one list, or a helper method of
+		// the rule taking the action / the secret.  mapv turns a value of its
+		// body into Rule.Allow's terms (parameter -> argument of this call)
+		mapv := func(x ssa.Value) ssa.Value {
+			o := eng.Origin(x)
+			if prm, isP := o.(*ssa.Parameter); isP && prm.Parent() == cal {
+				for i, q := range cal.Params {
+					if q == prm && i < len(call.Call.Args) {
+						return eng.Origin(call.Call.Args[i])
+					}
+				}
+			}
+			return o
+		}
+		listField := func(v ssa.Value) string {
+			// the list ranged over: a parameter bound to r.Action / r.Secret, or that field of the receiver parameter
+			if f := recvField(mapv(v)); f != "" {
+				return f
+			}
+			if fr, base, isF := eng.LoadedField(v); isF && mapv(base) == recv {
+				return fr.Name
+			}
 			return ""
 		}
-		if helper != nil && fld == "Secret" {
+		if helper != nil {
 			// alternative form: compile(secs...).MatchString(secret), guarded for the empty list
 			okH := false
 			for _, r := range eng.Returns(cal) {
 				rv := eng.RetVals(r)
 				if mc, _ := eng.TupleCall(rv[0]); mc != nil && eng.CalleeIs(&mc.Call, "regexp", "*Regexp.MatchString") {
-					if hc, _ := eng.TupleCall(mc.Call.Args[0]); hc != nil && eng.Callee(&hc.Call) == helper.fn && eng.Origin(hc.Call.Args[0]) == ssa.Value(cal.Params[0]) && eng.Origin(mc.Call.Args[1]) == secretP {
+					if hc, _ := eng.TupleCall(mc.Call.Args[0]); hc != nil && eng.Callee(&hc.Call) == helper.fn && listField(hc.Call.Args[0]) == "Secret" && mapv(mc.Call.Args[1]) == secretP {
 						okH = true
 					}
 				}
@@ -566,21 +586,20 @@ func c07RuleAllow(c *eng.Ctx, ruleAllow, match *ssa.Function, helper *globHelper
 				return res
 			}
 		}
+		if len(eng.RangeLoops(cal)) != 1 {
+			return "" // not a membership predicate
+		}
 		sum, ok := existsLoop(c, "R-C07-4", cal, want2)
 		if !ok || sum == nil {
 			failed = true
 			return ""
 		}
-		if !eng.Same(sum.loop.Slice, cal.Params[0]) {
-			c.Bad("R-C07-4", cal, cal.Pos(), "loop of "+eng.FName(cal), want2, "does not range over its whole argument")
-			failed = true
-			return ""
-		}
+		fld := listField(sum.loop.Slice)
 		switch fld {
 		case "Action":
 			op, x, y, isCmp := sum.pred.Cmp()
-			okk := isCmp && op == token.EQL && ((sum.loop.ElemOf(x) && eng.Origin(y) == actionP) || (sum.loop.ElemOf(y) && eng.Origin(x) == actionP))
-			c.Check(okk, "R-C07-4", cal, cal.Pos(), "action predicate "+sum.pred.String(), "element == action (exact, case-sensitive comparison with the function's action parameter)", "")
+			okk := isCmp && op == token.EQL && ((sum.loop.ElemOf(x) && mapv(y) == actionP) || (sum.loop.ElemOf(y) && mapv(x) == actionP))
+			c.Check(okk, "R-C07-4", cal, cal.Pos(), "action predicate "+sum.pred.String(), "element == action (exact, case-sensitive comparison with the function's action parameter), over the whole r.Action", "")
 			if okk {
 				res = "A"
 			} else {
@@ -588,13 +607,16 @@ func c07RuleAllow(c *eng.Ctx, ruleAllow, match *ssa.Function, helper *globHelper
 			}
 		case "Secret":
 			pc, _, truth, isCall := sum.pred.BoolCall()
-			okk := isCall && truth && eng.Callee(&pc.Call) == match && sum.loop.ElemOf(pc.Call.Args[0]) && eng.Origin(pc.Call.Args[1]) == secretP
-			c.Check(okk, "R-C07-4", cal, cal.Pos(), "secret predicate "+sum.pred.String(), "element.Match(secret) with the function's secret parameter", "")
+			okk := isCall && truth && eng.Callee(&pc.Call) == match && sum.loop.ElemOf(pc.Call.Args[0]) && mapv(pc.Call.Args[1]) == secretP
+			c.Check(okk, "R-C07-4", cal, cal.Pos(), "secret predicate "+sum.pred.String(), "element.Match(secret) with the function's secret parameter, over the whole r.Secret", "")
 			if okk {
 				res = "S"
 			} else {
 				failed = true
 			}
+		default:
+			c.Bad("R-C07-4", cal, cal.Pos(), "loop of "+eng.FName(cal), want2, "does not range over the whole r.Action / r.Secret of the receiver")
+			failed = true
 		}
 		return res
 	}
